@@ -115,6 +115,28 @@ Theorem c15_empty_value_in_contact_terms : forall e r c key,
 Proof. exact empty_value_in_contact_terms. Qed.
 Print Assumptions c15_empty_value_in_contact_terms.
 
+(* The empty-value sentence for the attribute `group`.  FULL STATEMENT (false): `group = ""` holds iff the contact is
+   in no group.  PARTIAL (c15_empty_value above): it tests the emptiness of what Contact.QueryProperty returns — and
+   QueryProperty resolves neither group nor id, status, flow, history (search-only attributes: contactql.Inspect
+   reports allow_as_group = false for them, but ParseQuery, flows.NewGroup and EvaluateQuery accept them).  The
+   evaluation of a group condition does not depend on the contact's groups (c15_group_not_resolved), so a member of a
+   group satisfies `group = ""` (c15_empty_value_group_refuted; KNOWN_FINDINGS.txt class empty-value:attr:group). *)
+Theorem c15_group_not_resolved : forall e r c o v,
+  eval_contact e r (Cond PAttr k_group o v) c
+  = eval_contact e r (Cond PAttr k_group o v)
+      {| c_uuid := c_uuid c; c_name := c_name c; c_lang := c_lang c; c_urns := c_urns c; c_ticket := c_ticket c;
+         c_created := c_created c; c_last_seen := c_last_seen c; c_fields := c_fields c; c_groups := [] |}.
+Proof. exact group_not_resolved. Qed.
+Print Assumptions c15_group_not_resolved.
+
+Theorem c15_empty_value_group_refuted :
+  exists e r c, c_groups c <> []
+    /\ eval_contact e r (Cond PAttr k_group OpEq []) c = RBool true
+    /\ eval_contact e r (Cond PAttr k_group OpNe []) c = RBool false
+    /\ validate e r (Cond PAttr k_group OpEq []) = None.
+Proof. exact empty_value_group_refuted. Qed.
+Print Assumptions c15_empty_value_group_refuted.
+
 (* -- numbers ------------------------------------------------------------------------------------------ *)
 
 (* <= and >= are the unions, != is the negation of =, for a present or an absent value *)
